@@ -220,4 +220,15 @@ Fixpoint dedup (l : list T) : list T :=
   end.
 Definition unique1 (a : arr T) : res (arr T) := flat_arr (dedup (std_sort (elems a))).
 
+(* manipulate.rs unique with an axis: the 1-D form on every lane through apply_along_axis (lanes with different
+   numbers of distinct values do not fit one shape: the re-assembly refuses them) *)
+Definition unique_arr (a : arr T) (axis : option Z) : res (arr T) :=
+  match axis with
+  | Some z =>
+    let zax := normalize_axis (ndim a) z in
+    let* _ := guard (zax <? Z.of_nat (ndim a))%Z EAxis in
+    apply_along_axis d d a (Z.to_nat zax) unique1
+  | None => unique1 a
+  end.
+
 End ArraySort.
